@@ -412,6 +412,13 @@ def run_property(ctx, profile, n, projection, tag_prefixes, crash_is_violation=T
     judged_dirs += list(g["by_mode"].get("direct", {}).get("dirs", []))
     r2, h2, t2 = judge(ctx, b, g["dirs"], projs)
     results.update(r2); hist.update(h2); traces.update(t2); crashes += g["crashes"]
+    # a panic recovered inside the bubble ends the history with a `P <text>` line: the server crashed on that history, whatever
+    # the (truncated) trace looks like to the model
+    crashed_ids = set(c[0] for c in crashes)
+    for hid, lines in traces.items():
+        ptxt = _trace_panic(lines)
+        if ptxt is not None and hid not in crashed_ids:
+            crashes.append((hid, "panic recovered while executing the history: " + ptxt[-2500:], ""))
 
     def refail(hh):
         rr = run_replay(ctx, b, [hh], name="shrink")
